@@ -103,18 +103,26 @@ type Spec struct {
 	Layout func(i uint64, r *core.Rand) idlm.Layout
 	// Mutate may alter the program after generation (hostile names etc.)
 	Mutate func(i uint64, r *core.Rand, p *idlm.Program)
+	// Base maps a program index to the index whose seed draws the program
+	// before Mutate (nil = itself): lets two indices share one base program.
+	Base func(i uint64) uint64
 }
 
 // Derive draws program i of a spec. The orchestrator and the driver call this
 // with the same arguments and obtain the same program (and the same object
 // graph), so the driver needs no serialised schema.
 func Derive(seed uint64, spec Spec, i uint64) *Prog {
-	rng := core.NewRand(seed, spec.Stream, i)
+	bi := i
+	if spec.Base != nil {
+		bi = spec.Base(i)
+	}
+	rng := core.NewRand(seed, spec.Stream, bi)
+	mrng := core.NewRand(seed, spec.Stream+"/mutate", i)
 	pr := &Prog{Index: i, Seed: seed, Stream: spec.Stream, PkgBase: fmt.Sprintf("verifgen/p%d", i)}
 	pr.Sem = spec.Sem(i, rng.Fork())
 	pr.P = idlm.GenProgram(rng.Fork(), pr.Sem)
 	if spec.Mutate != nil {
-		spec.Mutate(i, rng.Fork(), pr.P)
+		spec.Mutate(i, mrng, pr.P)
 	}
 	lay := idlm.PlainLayout
 	if spec.Layout != nil {
